@@ -74,12 +74,23 @@ class _LoggedFile:
         return self._f.__exit__(*a)
 
 
+class _LoggedBytesIO(io.BytesIO):
+    """a real io.BytesIO (so that isinstance checks in the code under test hold) whose release is logged"""
+    _log = None
+
+    def __exit__(self, *a):
+        if self._log is not None:
+            self._log.append(("close_file",))
+        return super().__exit__(*a)
+
+
 def open_stream(c, log, tmpfiles):
     k = c["kind"]
     if k[0] == "noreg":
         f = fake_net.ChunkedStream(c["content"], c["chunks"])
     elif k[0] == "bytesio":
-        f = io.BytesIO(b"P" * k[1] + c["content"])
+        f = _LoggedBytesIO(b"P" * k[1] + c["content"])
+        f._log = log
         f.seek(k[1])
     elif k[0] == "file":
         fd, path = tempfile.mkstemp(prefix="vf_tsize_")
@@ -121,7 +132,8 @@ def run_impl(c, handler=None):
     loghook = []
 
     def default_handler(filename, client, server, context):
-        return _LoggedFile(open_stream(c, loghook, tmpfiles), loghook)
+        f = open_stream(c, loghook, tmpfiles)
+        return f if isinstance(f, _LoggedBytesIO) else _LoggedFile(f, loghook)
     script = [(t, ADDRS[a], d) for (t, a, d) in c["events"]]
     try:
         log = fake_net.run_transfer(script, handler or default_handler, dict(c["options"]),
